@@ -211,7 +211,7 @@ Definition run_script (v : variant) (sc : script) : list sout :=
   ++ run_block v sc (build_limit (sc_calls sc)) (sc_sched sc).
 
 (* ---- wire format ----
-   script: n t start budget  nb {bcall}  K {na {action}}  np {time label}  {sop}
+   script: n t u start budget  nb {bcall}  K {na {action}}  np {time label}  {sop}
      bcall  = 1 n | 2 T | 3 tree      tree = 0 | 1 n | 2 T | 3 tree tree | 4 tree tree
      action = kind x label            sop  = 1 k | 2 T | 3 time label
    A missing number reads as 0 (Cur::next in harness/src/lib.rs). *)
@@ -292,11 +292,53 @@ Definition enc_sout (o : sout) : list N :=
   | OFuel => [8]
   end.
 
+(* ---- time unit ----
+   Every time on the wire (start time, limits, delays, absolute times, step
+   arguments) is given in units of u nanoseconds (u = 0 means 1) and every
+   printed time is divided by u again (all times of a run are multiples of u, so
+   this is exact): scripts reach timestamps far beyond 2^64 ns although every
+   number on the wire stays below 2^62.  The calendar-queue parameters n, t stay
+   in plain nanoseconds. *)
+Definition unit_of (u : N) : N := if u =? 0 then 1 else u.
+
+Fixpoint scale_lim (u : N) (l : lim) : lim :=
+  match l with
+  | LTime T => LTime (T * u)
+  | LAnd a b => LAnd (scale_lim u a) (scale_lim u b)
+  | LOr a b => LOr (scale_lim u a) (scale_lim u b)
+  | _ => l
+  end.
+
+Definition scale_bcall (u : N) (c : bcall) : bcall :=
+  match c with MaxItr n => MaxItr n | MaxTime T => MaxTime (T * u) | Limit l => Limit (scale_lim u l) end.
+
+Definition scale_sop (u : N) (o : sop) : sop :=
+  match o with SN k => SN k | SUntil T => SUntil (T * u) | SAdd t l => SAdd (t * u) l end.
+
+Definition scale_script (u : N) (sc : script) : script :=
+  {| sc_start := sc_start sc * u; sc_budget := sc_budget sc;
+     sc_calls := map (scale_bcall u) (sc_calls sc);
+     sc_prog := map (map (fun a : action => let '(k, x, l) := a in (k, x * u, l))) (sc_prog sc);
+     sc_pre := map (fun p => (fst p * u, snd p)) (sc_pre sc);
+     sc_sched := map (scale_sop u) (sc_sched sc) |}.
+
+Definition unscale_sout (u : N) (o : sout) : sout :=
+  match o with
+  | OStatus d r t k => OStatus d r (t / u) k
+  | OFinal c e lg ad rm =>
+      OFinal c (e / u) (map (fun p => (fst p, snd p / u)) lg)
+             (map (fun r => {| a_time := a_time r / u; a_label := a_label r; a_now := a_now r / u;
+                               a_ctx := a_ctx r; a_ok := a_ok r |}) ad)
+             (map (fun p => (fst p / u, snd p)) rm)
+  | _ => o
+  end.
+
 Definition run_gen (v : variant) (input : list N) : list N :=
   match input with
-  | n :: t :: r =>
+  | n :: t :: u0 :: r =>
       if (n =? 0) || (t =? 0) then [7]
-      else flat_map enc_sout (run_script v (dec_script r))
+      else let u := unit_of u0 in
+           flat_map enc_sout (map (unscale_sout u) (run_script v (scale_script u (dec_script r))))
   | _ => [7]
   end.
 
